@@ -607,8 +607,11 @@ def run(ctx) -> dict:
     # the lexical -> value mapping of timezone offsets keeps the sign of -00:MM
     from .c11_datetime import r11_5
     results.append(r11_5(ctx, counts))
+    # process-wide state is written only by the reviewed inventory (no new caches)
+    from .c19_global import r19_5 as _r19_5
+    _state = _r19_5(ctx, counts, lambda f: f.module.name.startswith(('elementpath.datatypes', 'elementpath.helpers', 'elementpath.xpath2._xpath2_operators', 'elementpath.xpath2._xpath2_constructors')), 1)
     return {
-        'results': results, 'counts': counts,
+        'results': results + [_state], 'counts': counts,
         'explanation':
             'Decided statically: integer bounds and the derivation tree equal XSD\'s (constant '
             'folding + class hierarchy); lexical patterns of integer/decimal/double/float/'
